@@ -214,3 +214,4 @@ func vfDecodeQueueLen() int  { return 0 }
 func vfMlFaults()                      {}
 func vfOpaqueBytes(name string) []byte { return nil }
 func vfTrace(msg string) {}
+func vfFixClock() {}
